@@ -1,3 +1,80 @@
-(* C04 — statements are added when the corresponding facts file lands *)
-From SV Require Import Bytes Lexer Tables ArgCheck Machine Printer GenTables.
-Theorem C04_placeholder : True. Proof. exact I. Qed.
+(* C04 — serialising a parsed script yields an equivalent script (print/parse round trip).
+
+   Proved here (sieve/LexerFacts.v over sieve/Lexer.v and sieve/Printer.v): the part of C04 that is about
+   values — "string and list values survive unchanged whatever characters they contain".
+     (a) every string token the lexer delivers is an exact string token (its text alone is matched
+         completely by the string rule) — so is every value the parser stores from one;
+     (b) an exact string token is printed as it is by the (repaired) list-item printer and is lexed back as
+         the same single token, whatever follows it, also after the blank the printer writes;
+     (c) a printed list of exact string tokens is lexed back as '[' item (',' item)* ']', whatever the items
+         contain and whatever follows.
+   Not proved: the tree-level statement (tosieve of an accepted tree re-parses to an equal tree and printing
+   is a fixed point).  The printer model (sieve/Printer.v: definition-order traversal, tag + parameter,
+   test lists, indentation, the newline after a multi-line string) is tied to commands.py by comparing the
+   printed text of every accepted input, and the round trip itself (print, re-parse, compare trees as maps,
+   print again, compare text) is evaluated on the implementation over enumerations, generated scripts,
+   layouts, mutants and a quoting-edge value generator. *)
+From Coq Require Import String.
+From Coq Require Import List NArith Bool Arith.
+From SV Require Import Bytes Lexer Tables ArgCheck ArgSpec Machine Printer GenTables.
+Import ListNotations.
+Local Open Scope nat_scope.
+From SV Require Import LexerFacts.
+
+(* every string token delivered by the lexer is an exact string token *)
+Theorem C04_lexed_strings_exact :
+  forall (pos : nat) (l : bytes) (t : token) (rest : bytes),
+  next_token pos l = LTok t rest -> t_kind t = TString -> exact_string (t_val t).
+Proof. exact LexerFacts.lexed_strings_exact. Qed.
+Print Assumptions C04_lexed_strings_exact.
+
+(* the list-item printer leaves a string token alone, whatever it contains *)
+Theorem C04_item_printed_unchanged :
+  forall s : bytes, exact_string s -> print_item s = s.
+Proof. exact LexerFacts.print_item_exact. Qed.
+Print Assumptions C04_item_printed_unchanged.
+
+(* a printed string token is lexed back as the same single token, whatever follows *)
+Theorem C04_string_lexes_back :
+  forall (pos : nat) (s : bytes) (rest : list N),
+  exact_string s ->
+  next_token pos (s ++ rest) = LTok {| t_kind := TString; t_val := s; t_pos := pos |} rest.
+Proof. exact LexerFacts.next_token_exact. Qed.
+Print Assumptions C04_string_lexes_back.
+
+(* ... also after the blank the printer writes before a value *)
+Theorem C04_string_lexes_back_after_blank :
+  forall (pos : nat) (s : bytes) (rest : list N),
+  exact_string s ->
+  next_token pos (32%N :: s ++ rest) =
+  LTok {| t_kind := TString; t_val := s; t_pos := S pos |} rest.
+Proof. exact LexerFacts.next_token_exact_sp. Qed.
+Print Assumptions C04_string_lexes_back_after_blank.
+
+(* a printed list is lexed back as bracket, the same items separated by commas, bracket *)
+Theorem C04_list_lexes_back :
+  forall (items : list bytes) (pos : nat) (rest : list N),
+  items <> [] ->
+  Forall exact_string items ->
+  next_n (2 * Datatypes.length items + 1) pos (print_items items ++ rest) =
+  Some ((TLeftBracket, [91%N]) :: commas items ++ [(TRightBracket, [93%N])], rest).
+Proof. exact LexerFacts.printed_list_lexes_back. Qed.
+Print Assumptions C04_list_lexes_back.
+
+(* non-vacuity: hostile contents are exact string tokens; and the model round trip on a concrete script *)
+Example C04_exact_examples :
+  Forall exact_string [bs """a\""b"""; bs """back\\slash"""; bs """[x], """; bs """two" ++ [10%N] ++ bs "lines"""; bs """"""].
+Proof. repeat constructor; vm_compute; reflexivity. Qed.
+
+Example C04_model_roundtrip :
+  let src := bs "require [""fileinto"", ""a\""b""]; if anyof (header :contains [""x,y"", ""]""] ""\\"", not exists ""z"") { fileinto ""[a]""; }" in
+  match parse gen_tables src with
+  | Accept r =>
+      let out := tosieve_all 10 r in
+      match parse gen_tables out with
+      | Accept r2 => tosieve_all 10 r2 = out
+      | _ => False
+      end
+  | _ => False
+  end.
+Proof. vm_compute. reflexivity. Qed.
